@@ -451,7 +451,10 @@ func (t *Tokenizer) Tokenize(input []byte) ([]models.TokenWithSpan, error) {
 		}()
 
 		for t.pos.Index < len(t.input) {
-			t.skipWhitespaceAndComments()
+			if err := t.skipWhitespaceAndComments(); err != nil {
+				tokenErr = err
+				return
+			}
 
 			if t.pos.Index >= len(t.input) {
 				break
@@ -591,7 +594,10 @@ func (t *Tokenizer) TokenizeContext(ctx context.Context, input []byte) ([]models
 				}
 			}
 
-			t.skipWhitespaceAndComments()
+			if err := t.skipWhitespaceAndComments(); err != nil {
+				tokenErr = err
+				return
+			}
 
 			if t.pos.Index >= len(t.input) {
 				break
@@ -685,20 +691,23 @@ func (t *Tokenizer) skipWhitespace() {
 // tokenize loop (rather than from readPunctuation) means the start position of
 // the following token is taken after the comment, a trailing comment does not
 // produce a token of its own, and runs of comments need no recursion.
-func (t *Tokenizer) skipWhitespaceAndComments() {
+// A block comment that is never closed is an error.
+func (t *Tokenizer) skipWhitespaceAndComments() error {
 	for {
 		t.skipWhitespace()
 		if t.pos.Index+1 >= len(t.input) {
-			return
+			return nil
 		}
 		c0, c1 := t.input[t.pos.Index], t.input[t.pos.Index+1]
 		switch {
 		case c0 == '-' && c1 == '-':
 			t.readLineComment()
 		case c0 == '/' && c1 == '*':
-			t.readBlockComment()
+			if err := t.readBlockComment(); err != nil {
+				return err
+			}
 		default:
-			return
+			return nil
 		}
 	}
 }
@@ -735,13 +744,15 @@ func (t *Tokenizer) readLineComment() {
 }
 
 // readBlockComment consumes a "/* ... */" comment and records it. The cursor
-// must be on the '/'.
-func (t *Tokenizer) readBlockComment() {
+// must be on the '/'. Reaching the end of the input before the closing "*/" is
+// reported as an error located at the start of the comment.
+func (t *Tokenizer) readBlockComment() error {
 	commentStartIdx := t.pos.Index
 	commentStartPos := t.toSQLPosition(t.pos)
 	t.pos.AdvanceRune('/', 1)
 	t.pos.AdvanceRune('*', 1)
 	// Skip until */ or EOF
+	closed := false
 	for t.pos.Index < len(t.input) {
 		cr, csize := utf8.DecodeRune(t.input[t.pos.Index:])
 		if cr == '*' {
@@ -750,12 +761,20 @@ func (t *Tokenizer) readBlockComment() {
 				nr, ns := utf8.DecodeRune(t.input[t.pos.Index:])
 				if nr == '/' {
 					t.pos.AdvanceRune(nr, ns) // End of block comment
+					closed = true
 					break
 				}
 			}
 		} else {
 			t.pos.AdvanceRune(cr, csize)
 		}
+	}
+	if !closed {
+		return errors.NewError(
+			errors.ErrCodeUnterminatedString,
+			"unterminated block comment",
+			commentStartPos,
+		).WithContext(string(t.input), 2).WithHint("Close the comment with */")
 	}
 	t.Comments = append(t.Comments, models.Comment{
 		Text:   string(t.input[commentStartIdx:t.pos.Index]),
@@ -764,6 +783,7 @@ func (t *Tokenizer) readBlockComment() {
 		End:    t.toSQLPosition(t.pos),
 		Inline: t.hasCodeBeforeOnLine(commentStartIdx),
 	})
+	return nil
 }
 
 // nextToken picks out the next token from the input
